@@ -83,23 +83,32 @@ class LocationRejects(Job):
 
     def declare(self, V):
         S = Struct()
-        S.lon = [V.float(f"lon{i}", nan=True, lo=-180, hi=180) for i in range(3)]
-        S.lat = [V.float(f"lat{i}", nan=True, lo=-90, hi=90) for i in range(3)]
+        S.lon = [V.float(f"lon{i}", nan=True, lo=-180, hi=180) for i in range(6)]
+        S.lat = [V.float(f"lat{i}", nan=True, lo=-90, hi=90) for i in range(6)]
         S.box = [V.float(f"b{i}", lo=-180, hi=180) for i in range(5)]
         return S
 
     def invoke(self, mods, S, K):
         f = mods.qartod.location_test
         if self.kind == "shape":
-            return f(K.farray(S.lon), K.farray(S.lat[:2]))
+            return f(K.farray(S.lon[:3]), K.farray(S.lat[:2]))
+        # same number of positions, different shapes
+        if self.kind == "shape_2x3_3x2":
+            return f(K.farray(S.lon).reshape(2, 3), K.farray(S.lat).reshape(3, 2))
+        if self.kind == "shape_2x3_6":
+            return f(K.farray(S.lon).reshape(2, 3), K.farray(S.lat))
+        if self.kind == "shape_4_2x2":
+            return f(K.farray(S.lon[:4]), K.farray(S.lat[:4]).reshape(2, 2))
+        if self.kind == "shape_1x3_3":
+            return f(K.farray(S.lon[:3]).reshape(1, 3), K.farray(S.lat[:3]))
         if self.kind == "shape0":
             return f(K.farray(S.lon[:0]), K.farray(S.lat[:1]))
         if self.kind == "bbox3":
-            return f(K.farray(S.lon), K.farray(S.lat), bbox=K.ftuple(S.box[:3]))
+            return f(K.farray(S.lon[:3]), K.farray(S.lat[:3]), bbox=K.ftuple(S.box[:3]))
         if self.kind == "bbox5":
-            return f(K.farray(S.lon), K.farray(S.lat), bbox=K.ftuple(S.box))
+            return f(K.farray(S.lon[:3]), K.farray(S.lat[:3]), bbox=K.ftuple(S.box))
         if self.kind == "bbox_scalar":
-            return f(K.farray(S.lon), K.farray(S.lat), bbox=S.box[0])
+            return f(K.farray(S.lon[:3]), K.farray(S.lat[:3]), bbox=S.box[0])
         raise ValueError(self.kind)
 
     def holds(self, S, out):
@@ -115,7 +124,7 @@ def jobs(tier):
                 if n > 3 and bbox == "default":
                     continue
                 out.append(Location(n, bbox, has_range))
-    for k in ("shape", "shape0", "bbox3", "bbox5", "bbox_scalar"):
+    for k in ("shape", "shape0", "shape_2x3_3x2", "shape_2x3_6", "shape_4_2x2", "shape_1x3_3", "bbox3", "bbox5", "bbox_scalar"):
         out.append(LocationRejects(k))
     out.append(Location(2, "given", True, canary="edge"))
     return out
